@@ -78,6 +78,8 @@ def encFail : Fail → String
   | .llNotSupported => "err llNotSupported"
   | .emptyLeafList => "err emptyLeafList"
   | .unsupportedType => "err unsupportedType"
+  | .decimalPrecision => "err decimalPrecision"
+  | .floatNaN => "err floatNaN"
   | .panic => "panic"
   | .unmodelled => "unmodelled"
 
